@@ -334,6 +334,19 @@ def hex_polys(nx, ny):
     return polys
 
 
+def fan_polys(n, ring=True):
+    """n triangles around a centre (n-fold junction) surrounded by a ring of n quadrilaterals"""
+    polys = []
+    P = [(math.cos(2 * math.pi * i / n + 0.05), math.sin(2 * math.pi * i / n + 0.05)) for i in range(n)]
+    Q = [(2.2 * math.cos(2 * math.pi * i / n + 0.05), 2.2 * math.sin(2 * math.pi * i / n + 0.05)) for i in range(n)]
+    for i in range(n):
+        polys.append([(0.0, 0.0), P[i], P[(i + 1) % n]])
+    if ring:
+        for i in range(n):
+            polys.append([P[i], Q[i], Q[(i + 1) % n], P[(i + 1) % n]])
+    return polys
+
+
 # ---------------------------------------------------------------------------------------------
 # structure of an abstract tissue (reference side; no forsys involved)
 # ---------------------------------------------------------------------------------------------
